@@ -157,11 +157,15 @@ def medium_cases(r):
     return cases
 
 
-def gen_big(rng, tier, mult):
+def gen_big(rng, tier, mult, ctx=None):
     """component drbgbig -- thorough tier and failing-input search (mult >= 10) only: ONE crypto_entropy_read of 2^32 + k
     bytes (k <= 2^20) against the same request made in 65537.. calls of 65536 bytes.  ~150 s without sanitizers
     (the two ways run in two processes at the same time); ~430 s with ASan, which is why this component is built without."""
     if os.environ.get("VERIF_NO_BIG") or not big_ok() or (tier == "quick" and mult < 10):
+        return []
+    if ctx is not None and getattr(ctx, "violations", None):
+        # an earlier component of this run (osent, drbg) has already reported a failing input: a change that breaks the
+        # ordinary cases breaks this one too (`first=` differs), and shrinking it costs minutes per attempt
         return []
     r = rng.fork("big")
     k = r.choice([0, 1, MAXLEN, r.range(2, 1 << 20)])
@@ -433,9 +437,10 @@ def _components(ctx):
              "(VERIF_NO_BIG=1: only the latter); non-trivial = at least one read of >0 bytes; distinct by hash of the op list",
         classify=classify, cpu=[], **BB),
       vlib.Component(
-        "drbgbig", "h_drbg.c", SRCS, ["drbg"], gen_big,
+        "drbgbig", "h_drbg.c", SRCS, ["drbg"], lambda rng, tier, mult: gen_big(rng, tier, mult, ctx),
         nontrivial=lambda c: any(o.startswith("bigread") for o in c),
-        rule="thorough tier and failing-input search (10x budget) only, not with VERIF_NO_BIG=1 or < 8 GiB available: ONE "
+        rule="thorough tier and failing-input search (10x budget) only, not with VERIF_NO_BIG=1 or < 8 GiB available, not when an earlier "
+             "component of the run has already reported a failing input: ONE "
              "crypto_entropy_read of 2^32 + k bytes (k <= 2^20; 65537+ pieces, 256 reseeds inside the call; OS answers from `entgen`) "
              "made by a forked child into a 4.3 GiB sentinel-filled shared mapping, against the same request made at the same "
              "time by the parent as calls of 65536 bytes (two checksums per piece, no second buffer): `same <n>` + the first "
